@@ -385,41 +385,33 @@ theorem isEqualPairs_of_data {P : α → Prop} {o : LeafOps α} (hr : ∀ a, P a
       isEqualPairs_of_data hr s _ hb.2.2 e.2.2]
 end
 
-/-! ### Clone -/
-
-def Fields.AllReq : Fields α → Prop
-  | .nil => True
-  | .cons p _ r => p = .req ∧ r.AllReq
-
-/-- no optional field at the top level of the cloned value (where Clone drops the presence bits) -/
-def Value.TopReq : Value α → Prop
-  | .struct fs => fs.AllReq
-  | _ => True
+/-! ### Clone (keeps the presence of every field since /repo 82431a4) -/
 
 theorem data_cloneFields {o : LeafOps α} (h : LeafEq o) :
-    ∀ fs : Fields α, fs.AllReq → dataFields (cloneFields o fs) = dataFields fs := by
-  intro fs hq
+    ∀ fs : Fields α, dataFields (cloneFields o fs) = dataFields fs := by
+  intro fs
   cases fs with
   | nil => simp [cloneFields]
   | cons p w r =>
-    obtain ⟨hp, hq⟩ := hq
-    subst hp
-    have ir := data_cloneFields h r hq
+    have ir := data_cloneFields h r
     cases w with
-    | leaf a => simp [cloneFields, dataFields, ir]
-    | _ => simp only [cloneFields, dataFields, ir]; rw [data_copyNew h _]
+    | leaf a => cases p <;> simp [cloneFields, dataFields, ir]
+    | _ => cases p <;> simp [cloneFields, dataFields, ir, data_copyNew h]
 
 theorem data_clone {o : LeafOps α} (h : LeafEq o) :
-    ∀ v : Value α, v.TopReq → data (clone o v) = data v := by
-  intro v hq
+    ∀ v : Value α, data (clone o v) = data v := by
+  intro v
   cases v with
-  | struct fs => simp only [clone, data]; rw [data_cloneFields h fs hq]
+  | struct fs => simp only [clone, data]; rw [data_cloneFields h fs]
   | choice k w => cases w with
     | leaf a => simp [clone]
     | _ => simp only [clone]; exact data_copyNew h _
   | _ => simp only [clone]; exact data_copyNew h _
 
-/-! ### Cmp of a copy: equal STATE is needed, so absent optional primitives must hold their zero value -/
+/-! ### identical STATE of a fresh copy: absent optional primitives must hold their zero value
+  (copyToNew does not carry the stored value of an absent optional primitive along; that value is
+  not data, and since /repo 82431a4 Cmp does not read it, so this is no longer needed for
+  `Cmp(copy, source) = 0`) -/
 
 mutual
 /-- every absent optional primitive field stores the zero value (true after init/reset and any
@@ -502,26 +494,24 @@ theorem copyNewPairs_clean {o : LeafOps α} (h : LeafEq o) :
 end
 
 theorem cloneFields_clean {o : LeafOps α} (h : LeafEq o) :
-    ∀ fs : Fields α, fs.AllReq → fs.Clean o → cloneFields o fs = fs := by
-  intro fs hq hc
+    ∀ fs : Fields α, fs.Clean o → cloneFields o fs = fs := by
+  intro fs hc
   cases fs with
   | nil => simp [cloneFields]
   | cons p w r =>
-    obtain ⟨hp, hq⟩ := hq
-    subst hp
     cases w with
     | leaf a =>
-      simp only [Fields.Clean] at hc
-      simp only [cloneFields]; rw [cloneFields_clean h r hq hc.2]
+      cases p <;> simp only [Fields.Clean] at hc <;> simp only [cloneFields] <;>
+        rw [cloneFields_clean h r hc.2]
     | _ =>
-      simp only [Fields.Clean] at hc
-      simp only [cloneFields]; rw [cloneFields_clean h r hq hc.2, copyNew_clean h _ hc.1]
+      cases p <;> simp only [Fields.Clean] at hc <;> simp only [cloneFields] <;>
+        rw [cloneFields_clean h r hc.2, copyNew_clean h _ hc.1]
 
 theorem clone_clean {o : LeafOps α} (h : LeafEq o) :
-    ∀ v : Value α, v.TopReq → v.Clean o → clone o v = v := by
-  intro v hq hc
+    ∀ v : Value α, v.Clean o → clone o v = v := by
+  intro v hc
   cases v with
-  | struct fs => simp only [clone]; rw [cloneFields_clean h fs hq hc]
+  | struct fs => simp only [clone]; rw [cloneFields_clean h fs hc]
   | choice k w => cases w with
     | leaf a => simp [clone]
     | _ => simp only [clone]; exact copyNew_clean h _ hc
